@@ -82,32 +82,35 @@ impl<R: Read + Seek> ReadBox<&mut R> for StsdBox {
         let mut mp4a = None;
         let mut tx3g = None;
 
-        // Get box header.
-        let header = BoxHeader::read(reader)?;
-        let BoxHeader { name, size: s } = header;
-        if s > size {
-            return Err(Error::InvalidData(
-                "stsd box contains a box with a larger size than it",
-            ));
-        }
+        // A box without sample entries has no child header to read.
+        if reader.stream_position()? + HEADER_SIZE <= start + size {
+            // Get box header.
+            let header = BoxHeader::read(reader)?;
+            let BoxHeader { name, size: s } = header;
+            if s > size {
+                return Err(Error::InvalidData(
+                    "stsd box contains a box with a larger size than it",
+                ));
+            }
 
-        match name {
-            BoxType::Avc1Box => {
-                avc1 = Some(Avc1Box::read_box(reader, s)?);
+            match name {
+                BoxType::Avc1Box => {
+                    avc1 = Some(Avc1Box::read_box(reader, s)?);
+                }
+                BoxType::Hev1Box => {
+                    hev1 = Some(Hev1Box::read_box(reader, s)?);
+                }
+                BoxType::Vp09Box => {
+                    vp09 = Some(Vp09Box::read_box(reader, s)?);
+                }
+                BoxType::Mp4aBox => {
+                    mp4a = Some(Mp4aBox::read_box(reader, s)?);
+                }
+                BoxType::Tx3gBox => {
+                    tx3g = Some(Tx3gBox::read_box(reader, s)?);
+                }
+                _ => {}
             }
-            BoxType::Hev1Box => {
-                hev1 = Some(Hev1Box::read_box(reader, s)?);
-            }
-            BoxType::Vp09Box => {
-                vp09 = Some(Vp09Box::read_box(reader, s)?);
-            }
-            BoxType::Mp4aBox => {
-                mp4a = Some(Mp4aBox::read_box(reader, s)?);
-            }
-            BoxType::Tx3gBox => {
-                tx3g = Some(Tx3gBox::read_box(reader, s)?);
-            }
-            _ => {}
         }
 
         skip_bytes_to(reader, start + size)?;
@@ -131,7 +134,17 @@ impl<W: Write> WriteBox<&mut W> for StsdBox {
 
         write_box_header_ext(writer, self.version, self.flags)?;
 
-        writer.write_u32::<BigEndian>(1)?; // entry_count
+        let entry_count = if self.avc1.is_some()
+            || self.hev1.is_some()
+            || self.vp09.is_some()
+            || self.mp4a.is_some()
+            || self.tx3g.is_some()
+        {
+            1
+        } else {
+            0
+        };
+        writer.write_u32::<BigEndian>(entry_count)?; // entry_count
 
         if let Some(ref avc1) = self.avc1 {
             avc1.write_box(writer)?;
